@@ -18,8 +18,8 @@ def sh(cmd, cwd=None, timeout=3600):
     return p.returncode, p.stdout
 
 
-def confirm(pid, k):
-    src = '/tmp/seeds/%s' % pid
+def confirm(pid, k, base='/tmp/seeds', tag=''):
+    src = '%s/%s' % (base, pid)
     diff = '%s/m%s.diff' % (src, k)
     demo = '%s/m%s_demo.py' % (src, k)
     meta = json.load(open('%s/m%s.json' % (src, k)))
@@ -39,7 +39,7 @@ def confirm(pid, k):
         ok = rc0 == 0 and rc1 == 1 and passed
         print('%s m%s: clean demo rc=%d, mutant demo rc=%d, tests %s -> %s' % (pid, k, rc0, rc1, 'pass' if passed else 'FAIL: ' + ot, 'CONFIRMED' if ok else 'REJECTED'))
         if ok:
-            d = os.path.join(ROOT, 'seeded', '%s-m%s' % (pid, k))
+            d = os.path.join(ROOT, 'seeded', '%s-%sm%s' % (pid, tag, k))
             os.makedirs(d, exist_ok=True)
             shutil.copy(diff, os.path.join(d, 'patch.diff'))
             shutil.copy(demo, os.path.join(d, 'demo.py'))
@@ -78,5 +78,7 @@ def run(sid, checks):
 if __name__ == '__main__':
     if sys.argv[1] == 'confirm':
         confirm(sys.argv[2], sys.argv[3])
+    elif sys.argv[1] == 'confirm2':
+        confirm(sys.argv[2], sys.argv[3], '/tmp/seeds2', 'r2')
     else:
         run(sys.argv[2], sys.argv[3:])
